@@ -658,6 +658,8 @@ def thresholds(m):
         ("random_with_copy", 50),
         ("random_with_cycle", 50),
         ("random_reaching_inconsistency", 20),
+        ("history_all_networks_consistent_to_end", 50),
+        ("ops_on_consistent_network", 10000),
         ("op:interval:LR", 50),
         ("op:interval:L-", 20),
         ("op:interval:-R", 20),
